@@ -4,6 +4,7 @@ import (
 	"fmt"
 	"go/constant"
 	"go/token"
+	"os"
 	"sort"
 	"strings"
 
@@ -688,6 +689,31 @@ func dontWaitSite(cs ssa.CallInstruction) bool {
 	if cal == nil || nm(cal) != "refreshAllocation" || len(cs.Common().Args) != 3 {
 		return false
 	}
-	k, ok := cs.Common().Args[2].(*ssa.Const)
-	return ok && k.Value != nil && constant.BoolVal(k.Value)
+	if k, ok := cs.Common().Args[2].(*ssa.Const); ok && k.Value != nil && k.Value.Kind() == constant.Bool {
+		return constant.BoolVal(k.Value)
+	}
+	// the mode may be an enum or a small struct: what matters is the ignoreResult argument of
+	// the PerformTransaction call(s) the callee makes, evaluated with this site's constants
+	call, ok := cs.(*ssa.Call)
+	if !ok || theWorld == nil {
+		return false
+	}
+	w := theWorld
+	n, nTrue := 0, 0
+	w.eachInstrDeep(cal, func(in ssa.Instruction) {
+		pc, ok := in.(*ssa.Call)
+		if !ok || !pc.Call.IsInvoke() || pc.Call.Method.Name() != "PerformTransaction" || len(pc.Call.Args) != 3 {
+			return
+		}
+		n++
+		q := &srcQuery{w: w, complete: true, budget: 300, seenPhi: map[*ssa.Phi]bool{}}
+		k, ok := q.constOf(pc.Call.Args[2], []srcFrame{{cal, call}}, nil)
+		if os.Getenv("TURNCHECK_SRCDEBUG") != "" {
+			fmt.Fprintf(os.Stderr, "dontWaitSite %s: arg %s const=%v ok=%v\n", w.instrPos(cs), w.key(pc.Call.Args[2]), k, ok)
+		}
+		if ok && k.Value != nil && k.Value.Kind() == constant.Bool && constant.BoolVal(k.Value) {
+			nTrue++
+		}
+	})
+	return n > 0 && n == nTrue
 }
